@@ -1,4 +1,5 @@
 import MtailVerif.Proofs.ExprGrammar
+import MtailVerif.Generated.Grammar
 /-! C23 — formatting preserves the program.  The part a theorem can carry: for every expression
     tree, the tokens the formatter writes (its parenthesisation rule, `lhsNeedsParens` /
     `rhsNeedsParens` of unparser.go, as modelled in Model/Unparse.lean) parse — by the
@@ -59,6 +60,85 @@ theorem format_parse_roundtrip_at_level (e : Node) (h : WF e) (j : Nat) (h1 : 1 
 theorem format_parse_args_roundtrip (a : Node) (as : Nodes) (h : WFs (.cons a as)) (rest : List Tok) :
     ∃ f0, ∀ f, f0 ≤ f → parseArgs f (toksArgs (.cons a as) ++ .rp :: rest) = some (.cons a as, .rp :: rest) :=
   (goodArgs h).parse (by simp) (.rp :: rest) rfl
+
+/-! ### the model's grammar and precedence table are the source's
+
+`Generated.Grammar` is rewritten from parser.y and unparser.go on every run.  The theorems below
+stop compiling when the productions of the expression levels, the operator classes, the
+formatter's precedence table or its two bracket rules change. -/
+
+open Generated.Grammar in
+/-- the level parser.y gives a binary operator: the index of the `X : X op_class opt_nl Y` rule
+    whose operator class lists the operator's token -/
+def yaccLevel (o : Op) : Option Nat :=
+  let chain := ["logical_expr", "bitwise_expr", "rel_expr", "shift_expr", "additive_expr", "multiplicative_expr",
+    "unary_expr"]
+  (List.range 6).findSome? fun k =>
+    let x := chain[k]!
+    let y := chain[k + 1]!
+    match productions.find? (fun r => r.1 == x) with
+    | some (_, alts) =>
+      alts.findSome? fun alt =>
+        match alt with
+        | [x', cls, "opt_nl", y'] =>
+          if x' == x && y' == y then
+            match productions.find? (fun r => r.1 == cls) with
+            | some (_, members) => if members.contains [opTokenName o] then some (k + 1) else none
+            | none => none
+          else none
+        | _ => none
+    | none => none
+
+open Generated.Grammar in
+/-- the strength unparser.go's `precedence` gives a binary operator -/
+def formatterPrec (o : Op) : Option Nat :=
+  let name := opTokenName o
+  let row : Option String := match binaryPrecedence.find? (fun (r : List String × String) => r.1.contains name) with
+    | some r => some r.2
+    | none =>
+      match binaryPrecedence.find? (fun (r : List String × String) => r.1 == ["default"]) with
+      | some r => some r.2
+      | none => none
+  match row with
+  | some c => precOrder.idxOf? c
+  | none => none
+
+/-- every left-associative binary level of parser.y is the level the model's parser uses -/
+theorem binLevel_is_yacc_level : ∀ o : Op, binLevel o = yaccLevel o := by
+  intro o; cases o <;> decide
+
+/-- unparser.go's precedence table is the model's, and on the grammar's binary operators it is
+    the grammar's level -/
+theorem opPrec_is_formatter_precedence : ∀ o : Op, some (opPrec o) = formatterPrec o := by
+  intro o; cases o <;> decide
+
+theorem formatter_precedence_matches_grammar : ∀ o : Op, ∀ k, yaccLevel o = some k → formatterPrec o = some k := by
+  intro o; cases o <;> decide
+
+open Generated.Grammar in
+theorem source_shape :
+    -- unary, postfix, primary, index and call productions, as the model's parser has them
+    (productions.find? (fun r => r.1 == "unary_expr")).map (·.2) = some [["postfix_expr"], ["NOT", "unary_expr"]] ∧
+    (productions.find? (fun r => r.1 == "postfix_expr")).map (·.2) = some [["primary_expr"], ["postfix_expr", "postfix_op"]] ∧
+    (productions.find? (fun r => r.1 == "postfix_op")).map (·.2) = some [["INC"], ["DEC"]] ∧
+    (productions.find? (fun r => r.1 == "primary_expr")).map (·.2) = some [["indexed_expr"], ["builtin_expr"], ["CAPREF"], ["CAPREF_NAMED"], ["STRING"], ["LPAREN", "logical_expr", "RPAREN"], ["INTLITERAL"], ["FLOATLITERAL"]] ∧
+    (productions.find? (fun r => r.1 == "indexed_expr")).map (·.2) = some [["id_expr"], ["indexed_expr", "LSQUARE", "arg_expr_list", "RSQUARE"]] ∧
+    (productions.find? (fun r => r.1 == "builtin_expr")).map (·.2) = some [["mark_pos", "BUILTIN", "LPAREN", "RPAREN"], ["mark_pos", "BUILTIN", "LPAREN", "arg_expr_list", "RPAREN"]] ∧
+    (productions.find? (fun r => r.1 == "arg_expr_list")).map (·.2) = some [["arg_expr"], ["arg_expr_list", "COMMA", "arg_expr"]] ∧
+    -- each binary level has exactly the pass-through and the left-recursive alternative (logical
+    -- also admits match expressions, which are outside the theorem's trees)
+    (productions.find? (fun r => r.1 == "logical_expr")).map (·.2) = some [["bitwise_expr"], ["match_expr"], ["logical_expr", "logical_op", "opt_nl", "bitwise_expr"], ["logical_expr", "logical_op", "opt_nl", "match_expr"]] ∧
+    (productions.find? (fun r => r.1 == "bitwise_expr")).map (·.2) = some [["rel_expr"], ["bitwise_expr", "bitwise_op", "opt_nl", "rel_expr"]] ∧
+    (productions.find? (fun r => r.1 == "rel_expr")).map (·.2) = some [["shift_expr"], ["rel_expr", "rel_op", "opt_nl", "shift_expr"]] ∧
+    (productions.find? (fun r => r.1 == "shift_expr")).map (·.2) = some [["additive_expr"], ["shift_expr", "shift_op", "opt_nl", "additive_expr"]] ∧
+    (productions.find? (fun r => r.1 == "additive_expr")).map (·.2) = some [["multiplicative_expr"], ["additive_expr", "add_op", "opt_nl", "multiplicative_expr"]] ∧
+    (productions.find? (fun r => r.1 == "multiplicative_expr")).map (·.2) = some [["unary_expr"], ["multiplicative_expr", "mul_op", "opt_nl", "unary_expr"]] ∧
+    -- the formatter: unary / postfix strengths and the two bracket rules
+    unaryPrecedence = [(["NOT"], "precUnary"), (["INC", "DEC"], "precPostfix"), (["default"], "precedence(v.Expr)")] ∧
+    lhsNeedsParensBody.getLast? = some "return precedence(lhs) < opPrecedence(op)" ∧
+    rhsNeedsParensBody.getLast? = some "return precedence(rhs) <= opPrecedence(op)" ∧
+    lhsNeedsParensBody.length = 3 ∧ rhsNeedsParensBody.length = 3 := by
+  refine ⟨?_, ?_, ?_, ?_, ?_, ?_, ?_, ?_, ?_, ?_, ?_, ?_, ?_, ?_, ?_, ?_, ?_, ?_⟩ <;> decide
 
 /-! ### the brackets are needed: what the grammar does with the text an un-bracketing printer writes -/
 
